@@ -267,6 +267,8 @@ def run(rep, tier):
     for lab, u in us.items():
         ncap += c12_audit.cap0_rule(rep, u, {lab if lab.startswith("src/") else "include/" + lab})
     rep.floor("returned capacity - 1", ncap, 1)
+    rep.floor("long-form length tests", c12_audit.asn_length_octets_rule(rep, us["utils/asn1.h"]), 1)
+    rep.floor("record growth obligations", c12_audit.record_realloc_rule(rep, us["src/utils/ini.c"]), 2)
     rep.floor("hex decoder capacity cases", c12_audit.hex2bin_exact_rule(rep, us["src/utils/buf_str.c"]), 10)
     rep.floor("Base64-style 'too small' returns in buf_str.c", c12_audit.need_size_rule(rep, us["src/utils/buf_str.c"], hdr="src/utils/buf_str.c", code="EOVERFLOW"), 2)
     # two OS-information helpers outside the anchored files that take (buffer, length) like the utilities above (third audit pass)
